@@ -558,3 +558,76 @@ add("b14r", ["C14", "C04"], (J, """        if self._task is None:
             return None
         return self._task._exception""", """        return self._task._exception if self._task is not None else None"""),
     expect='silent')
+
+# ------------------------------------------------------------------ C15
+add("m15a", ["C15"], (P, "                    if required_job._s_mark is None:    # pylint: disable=W0212",
+                      "                    if required_job._s_mark is not None:    # pylint: disable=W0212"), rules=["R15.1"])
+add("m15b", ["C15"], (P, "        self._reset_marks()\n        nb_marked = 0", "        nb_marked = 0"), rules=["R15.4"])
+add("m15c", ["C15"], (P, """            if not changed:
+                # this is wrong
+                raise Exception(
+                    "scheduler could not be scanned"
+                    " - most likely because of cycles")""", """            if not changed:
+                return"""), rules=["R15.4"])
+add("m15d", ["C15"], (P, """                if not has_unmarked_requirements:
+                    job._s_mark = True                  # pylint: disable=W0212
+                    nb_marked += 1
+                    changed = True
+                    yield job""", """                job._s_mark = True                  # pylint: disable=W0212
+                nb_marked += 1
+                changed = True
+                yield job"""), rules=["R15.1"])
+add("m15e", ["C15"], (P, """                    job._s_mark = True                  # pylint: disable=W0212
+                    nb_marked += 1""", """                    nb_marked += 1"""), rules=["R15.2", "R15.4"])
+add("m15f", ["C15"], (S, """                if isinstance(job, Scheduler) and not job.check_cycles():
+                    return False
+""", """                pass
+"""), rules=["R15.5"])
+add("m15g", ["C15"], (P, """            for _ in self.topological_order():
+                pass
+            return True""", """            for _ in self.topological_order():
+                return True
+            return True"""), rules=["R15.5"])
+add("m15h", ["C15"], (P, """                if job._s_mark:                         # pylint: disable=W0212
+                    continue
+""", ""), rules=["R15.2"])
+add("m15i", ["C15"], (P, """            if not changed:
+                # this is wrong
+                raise Exception(
+                    "scheduler could not be scanned"
+                    " - most likely because of cycles")""", """            if not changed:
+                pass"""), rules=["R15.4"])
+add("m15j", ["C15"], (P, """        except Exception as exc:                        # pylint: disable=W0703
+            if self.verbose:
+                print("check_cycles failed", exc)
+            return False
+
+    ####################
+    def topological_order""", """        except ValueError as exc:                        # pylint: disable=W0703
+            if self.verbose:
+                print("check_cycles failed", exc)
+            return False
+
+    ####################
+    def topological_order"""), rules=["R15.5"])
+add("m15k", ["C15"], (P, """        # if we still have jobs here it's not good either,
+        # although it should not happen on a sanitized scheduler
+        if nb_marked != target_marked:""", """        if False:"""), expect='silent',
+    note="the post-loop check is redundant with the loop's own exits")
+add("m15l", ["C15"], (P, """            if nb_marked >= target_marked:
+                # we're done
+                break""", """            if nb_marked >= 1:
+                # we're done
+                break"""), rules=["R15.4"], note="stops after the first pass")
+add("m15m", ["C15"], (P, "    def list(self, details=False):", "    def list(self, details=False, _unused=None):"), expect='silent')
+add("m15n", ["C15", "C20"], (P, """        self._set_sched_ids()
+        for job in self.topological_order():
+            job._list(details, 0, True)                 # pylint: disable=W0212""", """        self._set_sched_ids()
+        for job in self.jobs:
+            job._list(details, 0, True)                 # pylint: disable=W0212"""), rules=["R15.5", "R20.3"])
+add("b04c", ["C15"], (P, """                has_unmarked_requirements = False
+                for required_job in job.required:
+                    if required_job._s_mark is None:    # pylint: disable=W0212
+                        has_unmarked_requirements = True
+                if not has_unmarked_requirements:""", """                if all(required_job._s_mark is not None for required_job in job.required):"""),
+    expect='silent')
